@@ -246,6 +246,32 @@ func (cx *Ctx) classifyCallRaw(ci ssa.CallInstruction) string {
 				return "bank." + c.Method.Name()
 			}
 			return "ext." + n.Obj().Name() + "." + c.Method.Name()
+		case cx.narrowIfaceOf(n) != "":
+			// a narrow interface of the module (type coinMover interface{ SendCoins(...) error })
+			// that only ever holds one of the dependencies above: the call is that dependency's
+			switch src := cx.narrowIfaceOf(n); {
+			case src == "store":
+				switch c.Method.Name() {
+				case "Get":
+					return "store.get"
+				case "Has":
+					return "store.has"
+				case "Set":
+					return "store.set"
+				case "Delete":
+					return "store.delete"
+				case "Iterator":
+					return "store.iter"
+				case "ReverseIterator":
+					return "store.riter"
+				}
+			case src == "nft":
+				return "nft." + c.Method.Name()
+			case bankMethods[c.Method.Name()]:
+				return "bank." + c.Method.Name()
+			default:
+				return "ext." + src + "." + c.Method.Name()
+			}
 		case pkg == "github.com/cosmos/cosmos-sdk/types" && strings.HasPrefix(name, "EventManagerI."):
 			return "event"
 		}
@@ -1222,4 +1248,85 @@ func (cx *Ctx) fieldValues(base ssa.Value, idx int, fr *frame, depth int) []fram
 		return out
 	}
 	return nil
+}
+
+// narrowIfaceOf: for a named interface of irismod that is not itself a recognised dependency
+// interface - the ONE dependency every value converted into it comes from: the name of a
+// keeper interface ("BankKeeper"), "nft" (the SDK nft keeper), "store" (a KVStore); "" when
+// values of several kinds (or of the module's own types) are put into it.
+func (cx *Ctx) narrowIfaceOf(n *types.Named) string {
+	if n == nil || n.Obj().Pkg() == nil || !strings.HasPrefix(n.Obj().Pkg().Path(), modPrefix) {
+		return ""
+	}
+	if _, ok := n.Underlying().(*types.Interface); !ok {
+		return ""
+	}
+	if cx.narrow == nil {
+		cx.narrow = map[*types.TypeName]string{}
+		srcs := map[*types.TypeName]map[string]bool{}
+		kindOf := func(t types.Type) string {
+			sn := namedOf(t)
+			if sn == nil || sn.Obj().Pkg() == nil {
+				return "?"
+			}
+			switch {
+			case isKeeperIface(sn):
+				return sn.Obj().Name()
+			case sn.Obj().Pkg().Path() == "cosmossdk.io/x/nft/keeper" && sn.Obj().Name() == "Keeper":
+				return "nft"
+			case sn.Obj().Pkg().Path() == storeTypesPath && (sn.Obj().Name() == "KVStore" || sn.Obj().Name() == "BasicKVStore"):
+				return "store"
+			case sn.Obj().Pkg().Path() == "cosmossdk.io/store/prefix" && sn.Obj().Name() == "Store":
+				return "store"
+			}
+			return "?"
+		}
+		note := func(dst types.Type, src types.Type) {
+			dn := namedOf(dst)
+			if dn == nil || dn.Obj().Pkg() == nil || !strings.HasPrefix(dn.Obj().Pkg().Path(), modPrefix) || isKeeperIface(dn) {
+				return
+			}
+			if _, ok := dn.Underlying().(*types.Interface); !ok {
+				return
+			}
+			if sn := namedOf(src); sn != nil && sn.Obj() == dn.Obj() {
+				return
+			}
+			if srcs[dn.Obj()] == nil {
+				srcs[dn.Obj()] = map[string]bool{}
+			}
+			srcs[dn.Obj()][kindOf(src)] = true
+		}
+		var scan func(f *ssa.Function)
+		scan = func(f *ssa.Function) {
+			for _, b := range f.Blocks {
+				for _, ins := range b.Instrs {
+					switch x := ins.(type) {
+					case *ssa.ChangeInterface:
+						note(x.Type(), x.X.Type())
+					case *ssa.MakeInterface:
+						if c, isC := x.X.(*ssa.Const); isC && c.IsNil() {
+							continue
+						}
+						note(x.Type(), x.X.Type())
+					}
+				}
+			}
+		}
+		for _, f := range cx.P.AllFuncs {
+			if !cx.isDoubleFunc(f) {
+				scan(f)
+			}
+		}
+		for tn, ks := range srcs {
+			if len(ks) == 1 {
+				for k := range ks {
+					if k != "?" {
+						cx.narrow[tn] = k
+					}
+				}
+			}
+		}
+	}
+	return cx.narrow[n.Obj()]
 }
